@@ -106,10 +106,11 @@ func sep(r *rand.Rand, mayBeEmpty bool, canonical string) string {
 	return s
 }
 
-func join(r *rand.Rand, ls []lex) string {
-	var sb strings.Builder
+func join(r *rand.Rand, ls []lex, crlf bool) string {
+	var out strings.Builder
+	sb := &sepWriter{out: &out, crlf: crlf}
 	for i, l := range ls {
-		sb.WriteString(l.s)
+		out.WriteString(l.s)
 		if l.raw {
 			sb.WriteString("\n")
 			continue
@@ -135,7 +136,22 @@ func join(r *rand.Rand, ls []lex) string {
 		}
 		sb.WriteString(sep(r, mayEmpty, can))
 	}
-	return sb.String()
+	return out.String()
+}
+
+// sepWriter writes the text between grammar elements; with crlf every line
+// break in it is written as CR LF (verbatim blocks, actions and literals keep
+// their own bytes).
+type sepWriter struct {
+	out  *strings.Builder
+	crlf bool
+}
+
+func (w *sepWriter) WriteString(s string) {
+	if w.crlf {
+		s = strings.ReplaceAll(s, "\n", "\r\n")
+	}
+	w.out.WriteString(s)
 }
 
 // Render produces the grammar file text.
@@ -329,6 +345,8 @@ func Render(g *spec.Grammar, p Parts, o Options) string {
 	}
 	decl = append(decl, lex{s: "%%", nl: true})
 
+	// one rendering in five uses CR LF line ends between the grammar's elements
+	crlf := r != nil && r.Intn(5) == 0
 	// --- rules
 	var rules []lex
 	k := 0
@@ -374,7 +392,7 @@ func Render(g *spec.Grammar, p Parts, o Options) string {
 			rules[len(rules)-1].nl = true
 		}
 	}
-	rulesText := join(r, rules)
+	rulesText := join(r, rules, crlf)
 	if o.OneLineRules {
 		var parts []string
 		for _, l := range rules {
@@ -386,8 +404,12 @@ func Render(g *spec.Grammar, p Parts, o Options) string {
 		}
 		rulesText = strings.Join(parts, " ") + "\n"
 	}
-	text := join(r, decl) + rulesText
+	text := join(r, decl, crlf) + rulesText
 	if p.Epilogue == "" && o.NoSecondMarker {
+		if r != nil && r.Intn(2) == 0 {
+			// the file may end right after its last element, without a final line break
+			text = strings.TrimRight(text, " \t\r\n")
+		}
 		return text
 	}
 	return text + "%%" + p.Epilogue
